@@ -20,6 +20,7 @@
 //   iinc    CFG DESC off k        k times ++it, then k times --it                  -> byte off byte' off' (positions after the ++ run and after the -- run)
 // Buffers are heap blocks of exactly `len` bytes (ASan sees any access past them).
 #include "common.hpp"
+#include <sys/mman.h>
 
 #ifndef PART
 #define PART 0
@@ -108,7 +109,10 @@ template <typename C> static string ba_ops(const std::vector<string>& w) {
     if (w[2] != C::desc()) return "cfg-mismatch:" + C::desc();
     string out = "bad-op";
     if (w[0] == "iadv" && w.size() == 5) {
-        static std::vector<unsigned char> arena(1 << 20); unsigned char* base = arena.data() + (1 << 19);
+        // 1 GiB of reserved, inaccessible address space (never dereferenced): moves of up to +-2^32 bits stay inside one mapping
+        static unsigned char* region = static_cast<unsigned char*>(mmap(nullptr, 1ull << 30, PROT_NONE, MAP_PRIVATE | MAP_ANONYMOUS | MAP_NORESERVE, -1, 0));
+        if (region == MAP_FAILED) return "err:mmap";
+        unsigned char* base = region + (1ull << 29);
         int off = (int)hv::to_ll(w[3]); long long n = hv::to_ll(w[4]);
         it_t it(base, off); it_t it2 = it + n; it_t it3 = it2 - n; it_t it4 = it; it4 += n;
         auto pos = [&](it_t const& i) { return std::to_string((long long)(i.bit_range().current_byte() - base)) + " " + std::to_string(i.bit_range().bit_offset()); };
